@@ -65,6 +65,31 @@ theorem fact_nil_entries_checked : Facts.C12.nilEntriesChecked = true := by deci
     position in the group): `takeLoopPre` counts taken members -/
 theorem fact_apply_max_counts_taken_members : Facts.C12.applyMaxCountsTakenMembers = true := by decide
 
+/-- `apply`, "count" branch: the value compared with `*Count` is a separate counter incremented only in the branch that
+    takes a member, the test is the last statement of the loop body and leaves the loop (`takeLoop` counts taken MEMBERS,
+    not collected credentials: a `from_nested` member flattens to several credentials) -/
+theorem fact_apply_count_counts_taken_members : Facts.C12.applyCountCountsTakenMembers = true := by decide
+
+/-- pick/count: exactly the first `count` selectable members are taken, each with ALL its credentials — for all member
+    lists (a member of a `from_nested` group is a whole nested requirement and may hold any number of credentials) -/
+theorem count_takes_exactly_count_members (cfg : Cfg) (list : List Member) (rule : String) (hr : rule ≠ "all")
+    (c : Nat) (hc : 0 < c) (min max : Option Nat) (l : List Cred)
+    (h : apply cfg list rule (some c) min max = .ok l) :
+    l = ((available list).take c).flatten ∧ ((available list).take c).length = c := by
+  rw [apply_count cfg list rule hr] at h
+  split at h
+  · cases h
+  · next hlt =>
+    injection h with h
+    rw [takeLoop_eq c list 0 hc] at h
+    refine ⟨by simpa using h.symm, ?_⟩
+    rw [List.length_take]; omega
+
+/-- non-vacuity, and the reading "stop when `count` CREDENTIALS are collected" gives another result: pick 2 of three
+    nested members whose first holds two credentials takes the first TWO members (three credentials) -/
+example : apply Facts.C12.cfg [some [{ raw := "a" }, { raw := "b" }], some [{ raw := "c" }], some [{ raw := "d" }]] "pick" (some 2) none none
+    = .ok [{ raw := "a" }, { raw := "b" }, { raw := "c" }] := by rfl
+
 /-- `resolveCredential` returns the credential only when there is no `path_nested` left (no early return above that test) -/
 theorem fact_resolve_evaluates_path_nested_first : Facts.C12.resolveEvaluatesPathNestedBeforeReturningCredential = true := by decide
 
